@@ -63,12 +63,17 @@ fn world() -> &'static World {
         refs.insert("q".to_string(), lib_dict(&[("id", r("q")), ("a", r("p")), ("equipRef", r("p")), ("spaceRef", r("r")), ("equip", V::Marker)]));
         refs.insert("p".to_string(), lib_dict(&[("id", r("p")), ("a", r("q")), ("equipRef", r("q")), ("siteRef", r("s")), ("equip", V::Marker)]));
         refs.insert("s".to_string(), lib_dict(&[("id", r("s")), ("site", V::Marker)]));
+        // a tail that runs into a cycle which does not contain its start (rho shape)
+        refs.insert("t1".to_string(), lib_dict(&[("id", r("t1")), ("a", r("t2")), ("b", r("t2")), ("equipRef", r("t2"))]));
+        refs.insert("t2".to_string(), lib_dict(&[("id", r("t2")), ("a", r("t3")), ("b", r("t2")), ("equipRef", r("t3"))]));
+        refs.insert("t3".to_string(), lib_dict(&[("id", r("t3")), ("a", r("t2")), ("equipRef", r("t2"))]));
         let records = vec![
             lib_dict(&[]),
             lib_dict(&[("a", V::Marker)]),
             lib_dict(&[("a", V::num(5.0)), ("b", V::str("s"))]),
             lib_dict(&[("a", r("r")), ("b", r("q"))]),
             lib_dict(&[("a", r("q")), ("id", r("x")), ("equipRef", r("q")), ("point", V::Marker)]),
+            lib_dict(&[("a", r("t1")), ("b", r("t1")), ("id", r("x2")), ("equipRef", r("t1")), ("point", V::Marker)]),
             lib_dict(&[("a", V::dict(&[("b", V::dict(&[("a", V::num(1.0))]))]))]),
             lib_dict(&[("a", V::List(vec![V::num(5.0), r("r"), V::str("s")]))]),
             lib_dict(&[("s", V::Marker), ("site", V::Marker), ("id", r("s"))]),
@@ -354,7 +359,7 @@ pub fn child_params(job: &str) -> (u64, u64, usize) {
 
 pub fn run(tier: Tier) -> i32 {
     let mut run = Run::new("C09", tier, "fault_enumeration");
-    run.rule = "inputs: every sequence of <= 4/5 tokens over a 27-token alphabet (tags, keywords, every operator, literals of several kinds, stray '-' '=' '?') joined with and without spaces; every byte string <= 2/3 over all bytes; every prefix, substitution, deletion and insertion (23-byte alphabet) of ~280 printed filters; 8 nesting patterns ('(' , 'not ', 'a and ', 'a->', mixed) at every depth 1..256, 2^k(+1) up to 131072 and 10^5 on 8 MiB and 2 MiB stacks. Every input is parsed; every accepted filter is evaluated on 16 records with a resolver whose refs form 1- and 2-cycles over a namespace built from tests/defs/defs.zinc, printed and re-parsed. Oracle: returns — no panic, abort, stack overflow (exit status) or hang (6 s watchdog). non-trivial = distinct input of >= 2 bytes".into();
+    run.rule = "inputs: every sequence of <= 4/5 tokens over a 27-token alphabet (tags, keywords, every operator, literals of several kinds, stray '-' '=' '?') joined with and without spaces; every byte string <= 2/3 over all bytes; every prefix, substitution, deletion and insertion (23-byte alphabet) of ~280 printed filters; 8 nesting patterns ('(' , 'not ', 'a and ', 'a->', mixed) at every depth 1..256, 2^k(+1) up to 131072 and 10^5 on 8 MiB and 2 MiB stacks. Every input is parsed; every accepted filter is evaluated on 17 records with a resolver whose refs form 1- and 2-cycles over a namespace built from tests/defs/defs.zinc, printed and re-parsed. Oracle: returns — no panic, abort, stack overflow (exit status) or hang (6 s watchdog). non-trivial = distinct input of >= 2 bytes".into();
     run.assume("a case that does not finish within 6 s is a hang; crashes and hangs are confirmed in a fresh single-step child");
     crate::engine::quiet_panics();
     for (name, n, chunk) in jobs(tier) {
